@@ -38,6 +38,7 @@ type Gen struct {
 	RawPct      int  // percent of JSON inputs delivered as a hand-written byte string (padding, escapes, or malformed)
 	Links       bool // file ops also create symlinks (C20)
 	RepeatPct   int  // percent of result attachments that are repeated verbatim
+	MixPct      int  // percent of JSON-stdin creations that also carry a field flag (undefined input, invariants only)
 	ResPct      int  // extra percent of set commands that attach a result
 	AimPct      int  // percent of commands found by searching the model for a rare outcome class (aim.go)
 	IOPct       int  // percent of mutating commands that meet an I/O error (short write + ENOSPC, EIO on read, EMFILE on open)
@@ -364,6 +365,20 @@ func (g *Gen) next2(m *Model) Step {
 		}
 		if g.R.Chance(1, 3) {
 			c.Agent = g.agent()
+		}
+		if c.Mode == "json" && g.MixPct > 0 && g.R.Intn(100) < g.MixPct {
+			// field flags next to JSON on stdin: undefined by the manual, so
+			// nothing is predicted - but no reading of it may store an epic that
+			// is not a live epic, a state without its claim, and so on
+			c.Loose = true
+			switch g.R.Intn(3) {
+			case 0:
+				c.Extra = []string{"--epic", m.Resolve(g.ref(m, isEpic, g.R.Chance(2, 3)))}
+			case 1:
+				c.Extra = []string{"--state", g.state()}
+			case 2:
+				c.Extra = []string{"--claim", g.agent()}
+			}
 		}
 		if c.Mode == "json" && g.R.Chance(1, 12) {
 			g.addResult(&c)
